@@ -669,7 +669,7 @@ class Walker:
     """Enumerates acyclic paths of a body (or of a region starting at start_bb
     and ending when a block of stop_blocks is reached)."""
 
-    def __init__(self, body, facts=None, impure=None, oracle=None, max_paths=20000, stop_blocks=(), init_env=None, loop_once=False):
+    def __init__(self, body, facts=None, impure=None, oracle=None, max_paths=20000, stop_blocks=(), init_env=None, max_visits=1):
         self.body = body
         self.facts = facts
         self.ev = Evaluator(body, facts)
@@ -680,6 +680,7 @@ class Walker:
         self.paths = []
         self.truncated = False
         self.init_env = init_env or {}
+        self.max_visits = max_visits
 
     def run(self, start_bb=0):
         env = {}
@@ -688,7 +689,7 @@ class Walker:
         env.update(self.init_env)
         st = {"env": env, "heap": {}, "known": {}, "epoch": 0}
         p = Path()
-        self._go(start_bb, st, p, frozenset())
+        self._go(start_bb, st, p, {})
         return self.paths
 
     def _get(self, st):
@@ -741,13 +742,14 @@ class Walker:
                 path.blocks.append(bb)
                 self.paths.append(path)
                 return
-            if bb in visited:
+            if visited.get(bb, 0) >= self.max_visits:
                 path.end = "loop:%d" % bb
                 path.env = st["env"]
                 path.heap = st["heap"]
                 self.paths.append(path)
                 return
-            visited = visited | {bb}
+            visited = dict(visited)
+            visited[bb] = visited.get(bb, 0) + 1
             path.blocks.append(bb)
             b = body.blocks[bb]
             get = self._get(st)
